@@ -101,10 +101,18 @@ func (s *Server) InlineCompletion(_ context.Context, params json.RawMessage) (*I
 	return &InlineCompletionList{Items: []InlineCompletionItem{item}}, nil
 }
 
+// payeeTemplatesEntry is a cached template map together with the document text
+// it was computed for: a document that is closed and opened again comes back
+// with whatever its file holds now, without a change notification in between.
+type payeeTemplatesEntry struct {
+	content   string
+	templates map[string][]analyzer.PostingTemplate
+}
+
 func (s *Server) getPayeeTemplates(uri protocol.DocumentURI, content string) map[string][]analyzer.PostingTemplate {
 	if cached, ok := s.payeeTemplatesCache.Load(uri); ok {
-		if templates, ok := cached.(map[string][]analyzer.PostingTemplate); ok {
-			return templates
+		if entry, ok := cached.(payeeTemplatesEntry); ok && entry.content == content {
+			return entry.templates
 		}
 	}
 
@@ -116,7 +124,7 @@ func (s *Server) getPayeeTemplates(uri protocol.DocumentURI, content string) map
 		result = s.analyzer.Analyze(journal)
 	}
 
-	s.payeeTemplatesCache.Store(uri, result.PayeeTemplates)
+	s.payeeTemplatesCache.Store(uri, payeeTemplatesEntry{content: content, templates: result.PayeeTemplates})
 	return result.PayeeTemplates
 }
 
